@@ -525,9 +525,6 @@ func TestVerif_C04(t *testing.T) {
 		{name: "{1,2,3,4,5,6,65535}", vals: []uint16{1, 2, 3, 4, 5, 6, 65535}},
 		c04ByName(fam, "stride2-N4096"),
 	}
-	if thorough {
-		ishapes = append(ishapes, c04ByName(fam, "stride15-N4096"))
-	}
 	importProduct := func(ishapes []*c04Shape, ikeys []uint64) {
 		nb := 1
 		for range ikeys {
